@@ -1,2 +1,227 @@
-(* C07 — placeholder while the proofs are being written *)
-From Compio.Model Require Import Base Pool.
+(* C07 — managed buffer pool: exclusive ownership and conservation.
+   Model: model/Pool.v (the io_uring buffer ring with the code's u16 tail /
+   index arithmetic and the kernel's head & mask view, the fallback free queue,
+   the slot table, completions, multishot guards, operations, user handles).
+   Tie: every ownership history recorded on the real code by the POOL_BUF
+   hooks must be a run of this LTS (model/RunC07.v, ./check C07).
+   Statements only; proofs in thm/PoolThm.v.
+
+   Quantifier of every theorem: both pool kinds (u), every requested pool size
+   1 <= size <= 2^15 (nbuf = next_power_of_two(size)), every label sequence ls
+   of any length from the freshly created pool. *)
+From Compio.Model Require Import Base Pool RunC07.
+From Compio.Thm Require Import PoolThm.
+Local Open Scope nat_scope.
+
+(* Each pool buffer has exactly one owner at any time; ids outside the pool
+   have none; two live handles never carry the same id; a buffer a user holds
+   is owned by that handle only; the buffer the kernel would write into next
+   (the ring head) is owned by the ring only — so never by a handle, an
+   operation or a queued completion. *)
+Theorem C07_exclusive : forall (u : bool) (size : nat) (s0 : st) (ls : list label) (s : st),
+  1 <= size -> (NN size <= 32768)%N ->
+  pool_new u size = Ok s0 -> steps s0 ls = Some (Ok s) ->
+  (forall id, id < nbuf s -> exists o, owners s id = [o]) /\
+  (forall id, nbuf s <= id -> owners s id = []) /\
+  (forall h1 h2 id, live_handle s h1 = Some id -> live_handle s h2 = Some id -> h1 = h2) /\
+  (forall h id, live_handle s h = Some id -> owners s id = [OwHandle h]) /\
+  (forall id, kernel_target s = Some id -> owners s id = [OwRing]).
+Proof. exact c07_exclusive. Qed.
+Print Assumptions C07_exclusive.
+
+(* Conservation: the pool has nbuf = 2^e >= size buffers and
+   |ring| + |selected| + |in transit| + |in ops| + |handles| + |freed| = nbuf in
+   every reachable state; nothing is freed before Proactor::drop; when every
+   holder has let go the ring holds all nbuf buffers (the pool never shrinks);
+   after the release every buffer is either freed or still in a holder that
+   will free it. *)
+Theorem C07_conservation : forall (u : bool) (size : nat) (s0 : st) (ls : list label) (s : st),
+  1 <= size -> (NN size <= 32768)%N ->
+  pool_new u size = Ok s0 -> steps s0 ls = Some (Ok s) ->
+  size <= nbuf s /\ (exists e : N, (e <= 15)%N /\ NN (nbuf s) = (2 ^ e)%N) /\
+  length (ring_ids s) + n_selected s + n_transit s + n_inop s + n_handles s + length (freed s) = nbuf s /\
+  (released s = false -> freed s = []) /\
+  (released s = false -> quiet s = true ->
+     length (ring_ids s) = nbuf s /\ forall id, id < nbuf s -> In id (ring_ids s)) /\
+  (released s = true -> ring_ids s = [] /\ n_selected s = 0 /\
+                        n_transit s + n_inop s + n_handles s + length (freed s) = nbuf s).
+Proof. exact c07_conservation. Qed.
+Print Assumptions C07_conservation.
+
+(* Nothing blocks and nothing is lost for good: from every reachable state of a
+   live pool there is a continuation (the kernel completes / cancels what it
+   owns, the driver reaps, operations, streams and handles are dropped) after
+   which no holder is left and the ring holds all nbuf buffers again. *)
+Theorem C07_never_blocks : forall (u : bool) (size : nat) (s0 : st) (ls : list label) (s : st),
+  1 <= size -> (NN size <= 32768)%N ->
+  pool_new u size = Ok s0 -> steps s0 ls = Some (Ok s) -> released s = false ->
+  exists ls' s', steps s ls' = Some (Ok s') /\ released s' = false /\ quiet s' = true /\
+                 length (ring_ids s') = nbuf s /\ nbuf s' = nbuf s.
+Proof. exact c07_never_blocks. Qed.
+Print Assumptions C07_never_blocks.
+
+(* Exhaustion is reported, never waited for.  io_uring: the kernel's u16 test
+   tail == head holds exactly when no buffer is in the ring; then no completion
+   can carry data, the only answer for an operation in flight is -ENOBUFS
+   (ResourceBusy), and -ENOBUFS is never answered while a buffer is available. *)
+Theorem C07_exhaustion_reported : forall (size : nat) (s0 : st) (ls : list label) (s : st),
+  1 <= size -> (NN size <= 32768)%N ->
+  pool_new true size = Ok s0 -> steps s0 ls = Some (Ok s) -> released s = false ->
+  (ring_empty s = true <-> ring_ids s = []) /\
+  (ring_ids s = [] -> forall k more r, step s (LKernel k true more r) = None) /\
+  (ring_ids s = [] -> forall k o, nth_error (ops s) k = Some o -> o_inflight o = true -> o_kdone o = false ->
+     exists s1, step s (LKernel k false false RNoBufs) = Some (Ok s1) /\
+                cq s1 = cq s ++ [mk_cqe k None false RNoBufs]) /\
+  (ring_ids s <> [] -> forall k more, step s (LKernel k false more RNoBufs) = None).
+Proof. exact c07_exhaustion_uring. Qed.
+Print Assumptions C07_exhaustion_reported.
+
+(* ... and when the driver reaps that completion the operation ends with the
+   ResourceBusy result *)
+Theorem C07_exhaustion_result : forall (s : st) (k : nat) (o : opst) (rest : list cqe),
+  released s = false -> cq s = mk_cqe k None false RNoBufs :: rest -> nth_error (ops s) k = Some o ->
+  exists s', step s LCqe = Some (Ok s') /\ nbusy s' = S (nbusy s) /\
+             exists o', nth_error (ops s') k = Some o' /\ o_res o' = Some RNoBufs.
+Proof. exact exhaustion_result_thm. Qed.
+Print Assumptions C07_exhaustion_result.
+
+(* Fallback pool: BufferPool::pop on an empty free queue returns ResourceBusy at
+   once and changes nothing else; on a non-empty queue it hands out the front. *)
+Theorem C07_exhaustion_fallback : forall (s : st),
+  uring s = false -> released s = false ->
+  (queue s = [] -> step s LPop = Some (Ok (set_nbusy s (S (nbusy s))))) /\
+  (forall id q, queue s = id :: q -> forall s', step s LPop = Some (Ok s') ->
+     nbusy s' = nbusy s /\ pend s' = pend s ++ [id] /\ queue s' = q).
+Proof. exact exhaustion_fallback_thm. Qed.
+Print Assumptions C07_exhaustion_fallback.
+
+(* No reachable step panics: the `expect("Buffer should not be in use")` of
+   set_result, the `expect("Buffer should be available")` of pop, the checked u16
+   addition and the slice index of add_buffer never fire. *)
+Theorem C07_no_panic : forall (u : bool) (size : nat) (s0 : st) (ls : list label) (s : st) (l : label) (c : N),
+  1 <= size -> (NN size <= 32768)%N ->
+  pool_new u size = Ok s0 -> steps s0 ls = Some (Ok s) -> step s l <> Some (Panic c).
+Proof. exact c07_no_panic. Qed.
+Print Assumptions C07_no_panic.
+
+(* Ring indices: both u16 counters stay below 2^16, at most nbuf entries are
+   live, the `tail + offset` of a reset does not overflow and its cell index
+   is in range, the live entries [head, tail) occupy pairwise distinct cells,
+   the cell the next reset writes is none of them, and emptiness as the kernel
+   tests it agrees with the ring content. *)
+Theorem C07_ring_index : forall (size : nat) (s0 : st) (ls : list label) (s : st),
+  1 <= size -> (NN size <= 32768)%N ->
+  pool_new true size = Ok s0 -> steps s0 ls = Some (Ok s) -> released s = false ->
+  (tail s < U16)%N /\ (head s < U16)%N /\ ring_count s <= nbuf s /\ length (cells s) = nbuf s /\
+  ring_idx (tail s) 0%N (nbuf s) = Ok (nn (tail s mod NN (nbuf s))%N) /\
+  nn (tail s mod NN (nbuf s))%N < nbuf s /\
+  NoDup (map (fun i => kernel_idx s (head s + NN i)%N) (seq 0 (ring_count s))) /\
+  (ring_count s < nbuf s ->
+   ~ In (nn (tail s mod NN (nbuf s))%N) (map (fun i => kernel_idx s (head s + NN i)%N) (seq 0 (ring_count s)))) /\
+  (ring_empty s = true <-> ring_ids s = []).
+Proof. exact c07_ring_index. Qed.
+Print Assumptions C07_ring_index.
+
+(* The u16 wrap-around is invisible in the cell index because the number of
+   entries is a power of two: user index (tail % len) and kernel index
+   (head & (len-1)) of a wrapped counter equal those of the unbounded one. *)
+Theorem C07_ring_index_wrap : forall (n : nat) (x : N),
+  (exists e : N, (e <= 15)%N /\ NN n = (2 ^ e)%N) ->
+  ((x mod U16) mod NN n = x mod NN n)%N /\ (N.land (x mod U16) (NN n - 1) = x mod NN n)%N.
+Proof. exact c07_ring_index_wrap. Qed.
+Print Assumptions C07_ring_index_wrap.
+
+(* Creation: nbuf = next_power_of_two(size) >= size, ring entry i holds buffer
+   i, every buffer is in the ring. *)
+Theorem C07_pool_new : forall (u : bool) (size : nat),
+  1 <= size -> (NN size <= 32768)%N ->
+  exists s0, pool_new u size = Ok s0 /\ size <= nbuf s0 /\
+             (exists e : N, (e <= 15)%N /\ NN (nbuf s0) = (2 ^ e)%N) /\
+             uring s0 = u /\ released s0 = false /\ ring_ids s0 = seq 0 (nbuf s0) /\ quiet s0 = true /\
+             (u = true -> cells s0 = seq 0 (nbuf s0) /\ tail s0 = NN (nbuf s0) /\ head s0 = 0%N).
+Proof. exact c07_pool_new. Qed.
+Print Assumptions C07_pool_new.
+
+(* ---------------------------------------------------------------------- *)
+(* non-vacuity                                                              *)
+
+(* io_uring, size 3 (4 buffers): a multishot read delivers buffer 0 to a user
+   handle and selects buffer 1 (queued result); the stream is dropped early:
+   the kernel cancels, the leftover result is reset to the ring tail.  While the
+   user holds buffer 0 the kernel's next target is buffer 2, owned by the ring. *)
+Definition ex_prog : list label :=
+  [LOpNew; LSubmit 0; LKernel 0 true true ROk; LCqe; LPopMs 0; LTakeLoose 0;
+   LKernel 0 true true ROk; LCqe; LKernel 0 false false RCancel; LCqe; LGuardDrop 0].
+
+Example C07_nonvacuous_ring :
+  exists s0 s, pool_new true 3 = Ok s0 /\ nbuf s0 = 4 /\ steps s0 ex_prog = Some (Ok s) /\
+    owners s 0 = [OwHandle 0] /\ owners s 1 = [OwRing] /\ kernel_target s = Some 2 /\
+    ring_ids s = [2; 3; 1] /\ quiet s = false /\
+    exists s', steps s [LDropHandle 0] = Some (Ok s') /\ ring_ids s' = [2; 3; 1; 0] /\ quiet s' = true.
+Proof.
+  eexists. eexists. split; [vm_compute; reflexivity|]. split; [vm_compute; reflexivity|].
+  split; [vm_compute; reflexivity|]. repeat (split; [vm_compute; reflexivity|]).
+  eexists. split; [vm_compute; reflexivity|]. split; vm_compute; reflexivity.
+Qed.
+Print Assumptions C07_nonvacuous_ring.
+
+(* exhaustion on a ring of one buffer: the first read takes it, a second read
+   cannot be given data, gets -ENOBUFS and ends with ResourceBusy *)
+Example C07_nonvacuous_exhaustion :
+  exists s0 s, pool_new true 1 = Ok s0 /\
+    steps s0 [LOpNew; LSubmit 0; LKernel 0 true false ROk; LOpNew; LSubmit 1] = Some (Ok s) /\
+    ring_ids s = [] /\ step s (LKernel 1 true false ROk) = None /\
+    exists s', steps s [LKernel 1 false false RNoBufs; LCqe; LCqe] = Some (Ok s') /\ nbusy s' = 1 /\
+               (exists o, nth_error (ops s') 1 = Some o /\ o_res o = Some RNoBufs) /\
+               owners s' 0 = [OwInOp 0].
+Proof.
+  eexists. eexists. split; [vm_compute; reflexivity|]. split; [vm_compute; reflexivity|].
+  split; [vm_compute; reflexivity|]. split; [vm_compute; reflexivity|].
+  eexists. split; [vm_compute; reflexivity|]. split; [vm_compute; reflexivity|].
+  split; [eexists; split; vm_compute; reflexivity|vm_compute; reflexivity].
+Qed.
+Print Assumptions C07_nonvacuous_exhaustion.
+
+(* fallback pool of two buffers: two operations take them at creation, the
+   third creation is refused with ResourceBusy; dropping an operation returns
+   its buffer to the back of the queue; handles outliving the pool free their
+   buffer themselves *)
+Example C07_nonvacuous_fallback :
+  exists s0 s, pool_new false 2 = Ok s0 /\
+    steps s0 [LPop; LOpNew; LPop; LOpNew; LPop] = Some (Ok s) /\ nbusy s = 1 /\ queue s = [] /\
+    owners s 0 = [OwInOp 0] /\ owners s 1 = [OwInOp 1] /\
+    exists s', steps s [LKernel 0 false false ROk; LCqe; LOpMove 0; LOpBufDrop 1; LRelease; LDropHandle 0] = Some (Ok s') /\
+               freed s' = [1; 0] /\ quiet s' = true.
+Proof.
+  eexists. eexists. split; [vm_compute; reflexivity|]. repeat (split; [vm_compute; reflexivity|]).
+  eexists. split; [vm_compute; reflexivity|]. split; vm_compute; reflexivity.
+Qed.
+Print Assumptions C07_nonvacuous_fallback.
+
+(* the u16 tail wraps: after 65534 take/return rounds on a ring of 4 the tail is
+   4 + 65534 - 65536 = 2, the ring still holds all four buffers in FIFO order,
+   and the next reset writes cell 2 *)
+Example C07_nonvacuous_wrap :
+  exists s0 s, pool_new true 4 = Ok s0 /\ wrap_rounds (nn 65534%N) s0 = Some (Ok s) /\
+    tail s = 2%N /\ head s = 65534%N /\ ring_count s = 4 /\ ring_ids s = [2; 3; 0; 1] /\
+    ring_idx (tail s) 0%N (nbuf s) = Ok 2.
+Proof.
+  eexists. eexists. split; [vm_compute; reflexivity|]. split; [vm_compute; reflexivity|].
+  repeat (split; [vm_compute; reflexivity|]). vm_compute; reflexivity.
+Qed.
+Print Assumptions C07_nonvacuous_wrap.
+
+(* why the entry count must be a power of two: with 3 entries the cell index
+   would jump at the wrap of the u16 counter (65535 -> cell 0, 65536 -> cell 0
+   again instead of cell 1) *)
+Example C07_wrap_needs_power_of_two :
+  ((65536 mod U16) mod 3 <> 65536 mod 3)%N /\ ((65535 mod U16) mod 3 = (65536 mod U16) mod 3)%N.
+Proof. split; [vm_compute; discriminate|vm_compute; reflexivity]. Qed.
+Print Assumptions C07_wrap_needs_power_of_two.
+
+(* the defaults of ProactorBuilder::new (translated from the Rust source):
+   8 buffers of 8192 bytes, buffer group 1 *)
+Example C07_defaults :
+  exists s0, default_pool = Ok s0 /\ nbuf s0 = 8 /\ default_buf_len = 8192%N /\ buf_group = 1%N.
+Proof. eexists. split; [vm_compute; reflexivity|]. repeat split; vm_compute; reflexivity. Qed.
+Print Assumptions C07_defaults.
